@@ -24,7 +24,7 @@ fn hub_sync(local: &Path, hub: &Path) -> (Option<i32>, String) {
         Ok(o) => (o.status.code(), format!("{}{}", String::from_utf8_lossy(&o.stdout), String::from_utf8_lossy(&o.stderr))), Err(e) => (Some(-1), e.to_string()) }
 }
 pub fn scenarios() -> Vec<(&'static str, fn() -> Option<String>)> {
-    vec![("lands-the-tree-and-skips-what-is-there (C13)", sc_lands_and_skips), ("stale-listing-never-overwrites (C13)", sc_stale_listing), ("host-root-targets (C13)", sc_remote_targets)]
+    vec![("lands-the-tree-and-skips-what-is-there (C13)", sc_lands_and_skips), ("exit-0-means-every-local-file-is-on-the-hub (C13)", sc_refused_files), ("stale-listing-never-overwrites (C13)", sc_stale_listing), ("host-root-targets (C13)", sc_remote_targets)]
 }
 /// inode of every hub file: a Put publishes by rename, so a re-sent file gets a new inode (independent of message wording)
 fn inodes(r: &Path) -> BTreeMap<String, u64> {
@@ -60,6 +60,26 @@ fn sc_lands_and_skips() -> Option<String> {
     })();
     let _ = std::fs::remove_dir_all(&d);
     res
+}
+/// files the hub cannot take: a local regular file where the hub (another client) has a directory; a local directory named like
+/// the hub's control directory. Whatever hub-sync does about them, exit status 0 promises that EVERY local file is on the hub.
+fn sc_refused_files() -> Option<String> {
+    for (case, lfile, hfile) in [("a local file `docs` where the hub holds a directory `docs/`", "docs", Some("docs/readme.md")), ("a local directory `.copia/` (the hub's reserved name)", ".copia/notes.txt", None), ("a local file under a path that is a FILE on the hub", "data/part.bin", Some("data"))] {
+        let d = base("refused"); let (l, h) = (d.join("local"), d.join("hub"));
+        put(&l, "a.txt", b"alpha"); put(&l, lfile, b"the local file the hub cannot take as it is"); put(&l, "zz-last.txt", b"after the refused one");
+        std::fs::create_dir_all(&h).ok()?;
+        if let Some(hf) = hfile { put(&h, hf, b"committed by another client"); }
+        let (rc, out) = hub_sync(&l, &h);
+        let th = tree(&h);
+        let mut res = None;
+        if rc == Some(0) {
+            for (p, v) in tree(&l) { if th.get(&p) != Some(&v) { res = Some(format!("{case}: hub-sync exited 0 but the local file `{p}` is not on the hub with its bytes ({}) (C13)", out.lines().last().unwrap_or(""))); break; } }
+        }
+        if let Some(hf) = hfile { if th.get(hf).map(|v| v.as_slice()) != Some(b"committed by another client".as_slice()) { res = Some(format!("{case}: what another client had committed at `{hf}` is gone or changed (C13)")); } }
+        let _ = std::fs::remove_dir_all(&d);
+        if res.is_some() { return res; }
+    }
+    None
 }
 fn sc_remote_targets() -> Option<String> {
     // `host:root` targets through an ssh stand-in (drops `-T host copia`, runs the real binary): the tree must land in ROOT -
